@@ -3159,18 +3159,15 @@ func (c *current) onEnum1(name, values, annotations interface{}) (interface{}, e
 		Values:      make([]*EnumValue, len(vs)),
 		Annotations: toAnnotations(annotations),
 	}
-	// Assigns numbers in order. This will behave badly if some values are
-	// defined and other are not, but I think that's ok since that's a silly
-	// thing to do.
+	// Assigns numbers the way Thrift does: a value without an explicit
+	// number is the previous value plus one, whatever came before it.
 	next := 0
 	for idx, v := range vs {
 		ev := v.([]interface{})[0].(*EnumValue)
 		if ev.Value < 0 {
 			ev.Value = next
 		}
-		if ev.Value >= next {
-			next = ev.Value + 1
-		}
+		next = ev.Value + 1
 		en.Values[idx] = ev
 	}
 	return en, nil
